@@ -32,8 +32,9 @@ def write_xml(tree, d, order=None):
             f.write(text)
 
 
-def gen(root, xml, out, hashseed, walk, reuse=''):
+def gen(root, xml, out, hashseed, walk, reuse='', extra_env=None):
     env = dict(os.environ, PYTHONPATH=root, PYTHONHASHSEED=hashseed, PYTHONDONTWRITEBYTECODE='1', VERIF_REUSE=reuse)
+    env.update(extra_env or {})
     p = subprocess.run([PY, os.path.join(VERIF, 'tools', 'gen_variants.py'), root, xml, out, walk], env=env, capture_output=True, text=True, timeout=300)
     return (p.stdout.strip().split('\n') or ['?'])[-1]
 
@@ -68,6 +69,14 @@ def one_tree(args):
             res['problems'].append(f"variant {rname}: generator did not succeed: {st}")
         else:
             outs[rname] = read_tree(o)
+    # a process whose locale is not UTF-8 (LC_ALL=C, UTF-8 mode off): the files are the same bytes
+    o = os.path.join(base, 'out-c-locale')
+    st = gen(root, xml, o, '0', 'normal', extra_env=dict(LC_ALL='C', LANG='C', PYTHONUTF8='0', PYTHONCOERCECLOCALE='0', PYTHONIOENCODING='utf-8'))
+    res['runs'] += 1
+    if st != 'GENERATED':
+        res['problems'].append(f"variant c-locale (LC_ALL=C, PYTHONUTF8=0): generator did not succeed: {st}")
+    else:
+        outs['c-locale'] = read_tree(o)
     # XML files created on disk in another order
     xml2 = os.path.join(base, 'xml-rev')
     write_xml(tree, xml2, 'reversed')
@@ -159,6 +168,56 @@ def one_tree(args):
     return res
 
 
+def stale_trees():
+    a, b = empty_tree(), empty_tree()
+    for t, nm in ((a, 'Apple'), (b, 'Grape')):
+        t['']['structs'] += [{'name': 'Keeps', 'body': [F('k', 'char')]}]
+        t['pub']['structs'] += [{'name': nm, 'body': [F('a', 'char')]}]
+    return a, b
+
+
+def stale_bytecode_scenario(root, work, first, second):
+    """A build that pins SOURCE_DATE_EPOCH (reproducible-build environments do) regenerates over an output directory that has been imported
+    before (its __pycache__ directories are there) from a specification in which a type was renamed to a name of the same length: the
+    package imported afterwards must be the one just generated.  -> list of problems"""
+    base = os.path.join(work, 'stale')
+    src = os.path.join(base, 'pkg', 'src')
+    shutil.copytree(os.path.join(root, 'src'), src, ignore=shutil.ignore_patterns('__pycache__', '*.pyc'))
+    gdir = os.path.join(src, 'eolib', 'protocol', '_generated')
+    env = {k_: v for k_, v in os.environ.items() if k_ != 'PYTHONDONTWRITEBYTECODE'}
+    env.update(PYTHONPATH=src, SOURCE_DATE_EPOCH='1700000000')
+    problems = []
+    for nm, tree in (('first', first), ('second', second)):
+        xml = os.path.join(base, 'xml-' + nm)
+        write_xml(tree, xml)
+        if os.path.isdir(gdir):
+            # compiled files are matched to their source by size and whole-second modification time (a Python limitation): let the clock pass
+            # the second in which the first generation wrote its files
+            newest = max(os.stat(os.path.join(dp, f)).st_mtime for dp, _, fs in os.walk(gdir) for f in fs if f.endswith('.py'))
+            while int(time.time()) <= int(newest):
+                time.sleep(0.05)
+        st = gen(root, xml, gdir, '0', 'normal', extra_env=dict(SOURCE_DATE_EPOCH='1700000000'))
+        if st != 'GENERATED':
+            problems.append(f"{nm} generation with SOURCE_DATE_EPOCH set: generator did not succeed: {st}")
+            break
+        dp_ = os.path.join(base, f'declared-{nm}.json')
+        json.dump(declared(tree), open(dp_, 'w'))
+        p = subprocess.run([PY, os.path.join(VERIF, 'tools', 'ns_probe.py'), os.path.join(base, 'pkg'), 'eolib', dp_], capture_output=True, text=True, timeout=120, env=env)
+        try:
+            pr = json.loads(p.stdout.strip().split('\n')[-1])
+            for e in pr['errors']:
+                problems.append(f"after the {nm} generation (SOURCE_DATE_EPOCH set, output directory imported before) the package is not importable: {e}")
+            for m in [m for m in pr['name_mismatches'] if 'eolib.protocol._generated' in m.get('defined_in', '')][:2]:
+                problems.append(f"after the {nm} generation (SOURCE_DATE_EPOCH set, output directory imported before) declared type {m['name']} is not exported "
+                                f"as a class from {m.get('looked_up_in', m['defined_in'])}: {m.get('got', m.get('why'))}")
+        except Exception:
+            problems.append(f"import probe failed: {(p.stderr or p.stdout)[-300:]}")
+        if problems:
+            break
+    shutil.rmtree(base, ignore_errors=True)
+    return problems
+
+
 def run(tier):
     C = Check('C18', tier)
     C.prove('Properties/C18.v')
@@ -194,6 +253,11 @@ def run(tier):
             C.violation(f"tree '{r['name']}': {p}", dict(unit='protocol_code_generator', input=dict(tree=r['name'], xml=tree_xml(t['tree']))), key=key)
         if 'files' in r:
             cases.append((t['tree'], r['files'], r['init_lines']))
+    sa, sb = stale_trees()
+    for p in stale_bytecode_scenario(root, work, sa, sb)[:1]:
+        C.violation(f"regeneration over an imported output directory: {p}",
+                    dict(unit='protocol_code_generator', input=dict(tree='stale-bytecode', scenario='stale-bytecode', xml_first=tree_xml(sa), xml=tree_xml(sb))))
+    runs += 2
     rejected = [(t, r) for t, r in zip(trees, results) if r.get('rejected')]
     if rejected:
         try:
@@ -205,7 +269,7 @@ def run(tier):
         except CoqCaseError as ex:
             C.broken.append(dict(kind='correspondence', stream='rejected-trees', msg=str(ex)[-500:]))
     C.cov['random_trees_rejected_by_generator_and_model'] = [r['name'] for t, r in rejected]
-    C.stream('oracle.determinism', runs, runs, sample=dict(tree=trees[0]['name'], variants=[v[0] for v in VARIANTS] + ['same-object-twice', 'same-object-after-failed-run', 'created-reversed', 'second-run-same-dir', 'pre-populated', 'protocol.py generate / clean']))
+    C.stream('oracle.determinism', runs, runs, sample=dict(tree=trees[0]['name'], variants=[v[0] for v in VARIANTS] + ['same-object-twice', 'same-object-after-failed-run', 'c-locale', 'created-reversed', 'second-run-same-dir', 'pre-populated', 'protocol.py generate / clean']))
     C.cov['distribution'] = dict(trees=len(trees), generator_runs=runs)
     # ---- correspondence with Model/GenPkg.v: file set and __init__ star-imports
     fn = os.path.join(CASES, 'c18.v')
@@ -256,6 +320,10 @@ def replay(path):
     S = Scratch()
     work = os.path.join(S.dir, 'c18')
     os.makedirs(work)
+    if inp.get('scenario') == 'stale-bytecode':
+        probs = stale_bytecode_scenario(S.dir, work, xml_to_tree(inp['xml_first']), xml_to_tree(inp['xml']))
+        print("replay:", probs[0] if probs else "property holds on this input")
+        return 1 if probs else 0
     tree = xml_to_tree(inp['xml'])
     res = one_tree((0, inp.get('tree', 'replayed'), tree, S.dir, work, empty_tree()))
     probs = res.get('problems', []) + ([f"the generator rejects the tree: {res['rejected']}"] if res.get('rejected') else [])
